@@ -20,11 +20,18 @@
 (*     exchanged -- a step left out when the ORIGINAL runs forward is left *)
 (*     out when the inverted one runs inverse: the omissions keep their    *)
 (*     meaning; without pipeline-level inv they stay as written.  a with   *)
-(*     rf (and no ellps) becomes ellps=a,rf; k becomes k_0.  init= and     *)
-(*     nested pipelines are refused.                                       *)
+(*     rf (and no ellps) becomes ellps=a,rf -- also where the step gives   *)
+(*     both itself and an ellps comes from the pipeline level only (the    *)
+(*     step's own win); k becomes k_0.  init= and nested pipelines are     *)
+(*     refused.  Text that is not PROJ syntax (no proj= element: a         *)
+(*     Geodesy definition, family "pass") passes unchanged.                *)
 (* (2) Render: PROJ AST x layout -> text ('+' prefixes, blanks around '=', *)
-(*     one line or a line per step with LF / CR / CRLF, comments, order of *)
-(*     the elements of a step and of the pipeline header).                 *)
+(*     blank / blanks / TAB between the elements, one line or a line per   *)
+(*     step (indented by blanks or a TAB) with LF / CR / CRLF, comments,   *)
+(*     order of the elements of a step and of the pipeline header).        *)
+(*     Family "pass": a Geodesy definition that merely CONTAINS the word   *)
+(*     proj (in a comment, a macro name, a value), rendered by module      *)
+(*     Syntax with continuation lines, comments, line ends, < > sugar.     *)
 (* (3) The state machine enumerating layouts per case (one action per      *)
 (*     choice) and the invariants                                          *)
 (*       InvIsInverse    Plan(Translate(inv P), d) = Plan(Translate(P),    *)
@@ -39,7 +46,9 @@
 (***************************************************************************)
 EXTENDS Values, Json
 
-CONSTANTS PjCases,      \* sequence of cases [p |-> PROJ AST, fam |-> "probe" | "shared", refuse |-> "" | "init" | "nested"]
+CONSTANTS PjCases,      \* sequence of cases [p |-> PROJ AST, fam |-> "probe" | "shared" | "pass", refuse |-> "" | "init" | "nested"]
+                        \* (fam = "pass": p.steps is a Geodesy definition, nothing is to be translated)
+          PjResources,  \* function: macro name -> Geodesy definition AST (registered in canonical form)
           PjMaxChoices, \* bound on simultaneous non-default layout choices
           PjData        \* operands for the exact expectations (probe family)
 
@@ -50,6 +59,7 @@ Sx == INSTANCE Syntax WITH Cases <- <<>>, SxResources <- <<>>, MaxChoices <- 0, 
 
 PjCasesC == TLCEval(PjCases)
 PjDataC  == TLCEval(PjData)
+PjResC   == TLCEval(PjResources)
 ProbeNames == {"t_add", "t_dbl", "t_oneway", "t_failodd", "noop"}
 
 (***************************************************************************)
@@ -59,18 +69,24 @@ HasKey(args, k) == \E i \in 1..Len(args) : args[i].k = k
 LastIdx(args, k) == CHOOSE i \in 1..Len(args) : args[i].k = k /\ \A j \in 1..Len(args) : args[j].k = k => j <= i
 ValWord(v) == CASE v.f = "lit" -> ToString(v.v) [] v.f = "txt" -> v.s
 
-\* a and rf (without ellps) are the ellipsoid a,rf; k is k_0
-Tidy(args) ==
-    LET ell == HasKey(args, "a") /\ HasKey(args, "rf") /\ ~HasKey(args, "ellps")
+\* a and rf (without ellps) are the ellipsoid a,rf; k is k_0.
+\* G: what comes from the pipeline level, own: the step's own arguments.  A step that gives a and rf itself (and no
+\* ellps) has its own ellipsoid: an ellps from the pipeline level is a global that must not override step-local values.
+\* (Any other combination of ellps with a / rf is not generated, see MC_C17.)
+OwnEllipsoid(own) == HasKey(own, "a") /\ HasKey(own, "rf") /\ ~HasKey(own, "ellps")
+Tidy2(G, own) ==
+    LET args == G \o own
+        ell == HasKey(args, "a") /\ HasKey(args, "rf") /\ (~HasKey(args, "ellps") \/ OwnEllipsoid(own))
         kept == IF ell THEN SelectSeq(args, LAMBDA x : x.k \notin {"a", "rf"}) ELSE args
         more == IF ell THEN << [k |-> "ellps", v |-> [f |-> "list", s |-> <<ValWord(args[LastIdx(args, "a")].v),
                                                                             ValWord(args[LastIdx(args, "rf")].v)>>]] >>
                 ELSE <<>>
         all == kept \o more
     IN [i \in 1..Len(all) |-> IF all[i].k = "k" THEN [all[i] EXCEPT !.k = "k_0"] ELSE all[i]]
+Tidy(args) == Tidy2(<<>>, args)
 
 TransStep(s, G, ginv) ==
-    [name |-> s.name, args |-> Tidy(G \o s.args),
+    [name |-> s.name, args |-> Tidy2(G, s.args),
      inv |-> (s.inv # ginv),
      of  |-> IF ginv THEN s.oi ELSE s.of,
      oi  |-> IF ginv THEN s.of ELSE s.oi]
@@ -87,28 +103,30 @@ RefText(p) == Sx!CanonText(Translate(p))
 (***************************************************************************)
 (* Layout and rendering                                                    *)
 (***************************************************************************)
-PjFields == {"plus", "eq", "lines", "eol", "cpos", "order", "hdr", "outer"}
+PjFields == {"plus", "eq", "sep", "lines", "eol", "cpos", "order", "hdr", "outer"}
 PjDefault == [f \in PjFields |->
-    CASE f = "plus" -> "none" [] f = "eq" -> "no" [] f = "lines" -> "one" [] f = "eol" -> "lf"
+    CASE f = "plus" -> "none" [] f = "eq" -> "no" [] f = "sep" -> "sp" [] f = "lines" -> "one" [] f = "eol" -> "lf"
       [] f = "cpos" -> "none" [] f = "order" -> "canon" [] f = "hdr" -> "canon"
       [] f = "outer" -> "none"]
 PjAlts(f) ==
     CASE f = "plus"  -> {"all", "sp"}                 \* +proj=utm +zone=32   /   + proj=utm + zone=32
       [] f = "eq"    -> {"both", "right", "left"}
-      [] f = "lines" -> {"steps", "steps0"}           \* a line per step, indented or not
+      [] f = "sep"   -> {"tab", "wide"}               \* what separates the elements: a blank / a TAB / two blanks
+      [] f = "lines" -> {"steps", "steps0", "stepstab"}  \* a line per step, indented by blanks / not / by a TAB
       [] f = "eol"   -> {"cr", "crlf"}
       [] f = "cpos"  -> {"top", "mid", "end", "trail1", "traillast"}
       [] f = "order" -> {"projlast", "modsfirst", "mixed"}  \* where proj= and the modifiers stand in a step
       [] f = "hdr"   -> {"projlast"}                  \* inv globals proj=pipeline
       [] f = "outer" -> {"lead", "trail", "both"}
 PjNonDefault(l) == {f \in PjFields : l[f] # PjDefault[f]}
-PjFieldOrder == <<"plus", "eq", "lines", "eol", "cpos", "order", "hdr", "outer">>
+PjFieldOrder == <<"plus", "eq", "sep", "lines", "eol", "cpos", "order", "hdr", "outer">>
 
 PjHasEol(p, l) == (p.pipe /\ l["lines"] # "one") \/ l["cpos"] \in {"top", "mid", "end", "trail1"} \/ l["outer"] \in {"trail", "both"}
 
 PjApplicable(p, l) ==
     LET D == PjNonDefault(l) IN
     /\ "lines" \in D => p.pipe
+    /\ "sep" \in D   => (p.pipe \/ Len(p.steps[1].args) >= 1 \/ p.steps[1].inv \/ p.steps[1].of \/ p.steps[1].oi)
     /\ "hdr" \in D   => p.pipe /\ (p.ginv \/ Len(p.globals) > 0)
     /\ "eol" \in D   => PjHasEol(p, l)
     /\ l["cpos"] \in {"mid", "trail1"} => p.pipe
@@ -140,7 +158,12 @@ HeaderElems(p, l) ==
         gl == [j \in 1..Len(p.globals) |-> PjArg(p.globals[j], l)]
     IN IF l["hdr"] = "canon" THEN pr \o iv \o gl ELSE iv \o gl \o pr
 
-Elems(es, l) == Sx!Spaced([i \in 1..Len(es) |-> Plus(es[i], l)])
+SepLex(l) == CASE l["sep"] = "sp" -> " " [] l["sep"] = "tab" -> "\t" [] l["sep"] = "wide" -> "  "
+RECURSIVE SpacedBy(_, _)
+SpacedBy(ss, b) == IF Len(ss) = 0 THEN <<>>
+                   ELSE IF Head(ss) = <<>> THEN SpacedBy(Tail(ss), b)
+                   ELSE LET r == SpacedBy(Tail(ss), b) IN IF r = <<>> THEN Head(ss) ELSE Head(ss) \o <<b>> \o r
+Elems(es, l) == SpacedBy([i \in 1..Len(es) |-> Plus(es[i], l)], SepLex(l))
 
 \* (a comment that contains '|' is not generated: parse_proj documents that a text with a '|' "does not look like a
 \* PROJ string" and is passed on unchanged)
@@ -159,8 +182,8 @@ PjRender(p, l) ==
                 \* what separates a step from what precedes it
                 brk == l["lines"] # "one"
                 sep(i) == IF brk \/ (i = 1 /\ l["cpos"] \in {"mid", "trail1"})
-                          THEN <<e>> \o (IF l["lines"] = "steps" THEN <<"    ">> ELSE <<>>)
-                          ELSE <<" ">>
+                          THEN <<e>> \o (CASE l["lines"] = "steps" -> <<"    ">> [] l["lines"] = "stepstab" -> <<"\t">> [] OTHER -> <<>>)
+                          ELSE <<SepLex(l)>>
                 afterhdr == (IF l["cpos"] = "trail1" THEN <<" ">> \o PjComment(l) ELSE <<>>)
                             \o (IF l["cpos"] = "mid" THEN <<e>> \o PjComment(l) ELSE <<>>)
                 step(i) == sep(i) \o Elems(<< <<"step">> >> \o StepElems(p.steps[i], l), l)
@@ -168,27 +191,61 @@ PjRender(p, l) ==
 
 PjText(lex) == JoinStr(lex, "")
 
-PjIsWord(x) == ~(x \in {" ", "  ", "    ", "\n", "\r", "\r\n", "+", "=", ",", "#", "|"})
+PjIsWord(x) == ~(x \in {" ", "  ", "    ", "\t", "\n", "\r", "\r\n", "+", "=", ",", "#", "|"})
 PjLexSafe(lex) == \A i \in 1..(Len(lex) - 1) : ~(PjIsWord(lex[i]) /\ PjIsWord(lex[i + 1]))
 
 (***************************************************************************)
 (* The enumeration                                                         *)
 (***************************************************************************)
 VARIABLES pc,   \* index of the case
-          pl    \* the layout chosen so far
-pjvars == <<pc, pl>>
+          pl,   \* the PROJ layout chosen so far
+          sl    \* family "pass": the layout (of module Syntax) chosen so far
+pjvars == <<pc, pl, sl>>
 
 Case == PjCasesC[pc]
 Pj == Case.p
+IsPass == Case.fam = "pass"
 
-PjInit == pc \in 1..Len(PjCasesC) /\ pl = PjDefault
+(***************************************************************************)
+(* Family "pass": text that is not PROJ syntax                             *)
+(* A Geodesy definition in the layouts of module Syntax.  The comment, if  *)
+(* there is one, says "reprojected"; steps that can be written with < / >  *)
+(* are (a text with '|' is passed on by a rule of its own).  The colon of  *)
+(* a continuation line stands in the first column (the indented colon is   *)
+(* the business of C16).                                                   *)
+(***************************************************************************)
+PassDef == Pj.steps
+PassBase(def) == [Sx!Default EXCEPT !["ctext"] = "p",
+                                    !["sugar"] = IF \E i \in 1..Len(def) : Sx!SxSugarable(def[i]) THEN "yes" ELSE "no"]
+PassFields == {"cont", "cpos", "eol", "lines", "outer", "eq"}
+PassAlts(f) == CASE f = "cont"  -> {"sp", "nosp"}
+                 [] f = "cpos"  -> {"top", "mid", "end", "trail1", "traillast"}
+                 [] f = "eol"   -> {"cr", "crlf"}
+                 [] f = "lines" -> {"lead", "trail"}
+                 [] f = "outer" -> {"both"}
+                 [] f = "eq"    -> {"both"}
+PassNonDefault(def, l) == {f \in PassFields : l[f] # PassBase(def)[f]}
+PassFieldOrder == <<"cont", "cpos", "eol", "lines", "outer", "eq">>
+PassText(def, l) == Sx!SxText(Sx!Render(def, l))
+\* (what the comment says is not a choice here)
+PassApplicable(def, l) == Sx!Applicable(def, [l EXCEPT !["ctext"] = Sx!Default["ctext"]])
 
-PjChoose == /\ Cardinality(PjNonDefault(pl)) < PjMaxChoices
+PjInit == /\ pc \in 1..Len(PjCasesC) /\ pl = PjDefault
+          /\ sl = IF PjCasesC[pc].fam = "pass" THEN PassBase(PjCasesC[pc].p.steps) ELSE Sx!Default
+
+PjChoose == /\ ~IsPass
+            /\ Cardinality(PjNonDefault(pl)) < PjMaxChoices
             /\ \E f \in PjFields : /\ pl[f] = PjDefault[f]
                                    /\ \E a \in PjAlts(f) : pl' = [pl EXCEPT ![f] = a] /\ PjApplicable(Pj, pl')
-            /\ UNCHANGED pc
+            /\ UNCHANGED <<pc, sl>>
 
-PjNext == PjChoose
+PassChoose == /\ IsPass
+              /\ Cardinality(PassNonDefault(PassDef, sl)) < PjMaxChoices
+              /\ \E f \in PassFields : /\ sl[f] = PassBase(PassDef)[f]
+                                       /\ \E a \in PassAlts(f) : sl' = [sl EXCEPT ![f] = a] /\ PassApplicable(PassDef, sl')
+              /\ UNCHANGED <<pc, pl>>
+
+PjNext == PjChoose \/ PassChoose
 PjSpec == PjInit /\ [][PjNext]_pjvars
 
 (***************************************************************************)
@@ -197,9 +254,23 @@ PjSpec == PjInit /\ [][PjNext]_pjvars
 IsProbeCase == Case.fam = "probe" /\ ~Refused(Case)
 
 PjTypeOK == /\ pc \in 1..Len(PjCasesC)
-            /\ Cardinality(PjNonDefault(pl)) <= PjMaxChoices /\ PjApplicable(Pj, pl)
-            /\ PjLexSafe(PjRender(Pj, pl))
-            /\ (~Pj.pipe => Len(Pj.steps) = 1 /\ Len(Pj.globals) = 0 /\ ~Pj.ginv)
+            /\ ~IsPass =>
+                 /\ Cardinality(PjNonDefault(pl)) <= PjMaxChoices /\ PjApplicable(Pj, pl)
+                 /\ PjLexSafe(PjRender(Pj, pl))
+                 /\ (~Pj.pipe => Len(Pj.steps) = 1 /\ Len(Pj.globals) = 0 /\ ~Pj.ginv)
+                 /\ sl = Sx!Default
+            /\ IsPass =>
+                 /\ pl = PjDefault /\ ~Refused(Case) /\ ~Pj.pipe /\ ~Pj.ginv /\ Len(Pj.globals) = 0
+                 /\ Cardinality(PassNonDefault(PassDef, sl)) <= PjMaxChoices /\ PassApplicable(PassDef, sl)
+
+\* family "pass": every rendering still reads as the definition (module Syntax's reference reading), none has a proj=
+\* element or a '|' -- it is not PROJ syntax and is not passed on by the rule for '|'
+PassIsGeodesy == IsPass =>
+    LET lex == Sx!Render(PassDef, sl)
+        r == Sx!Parse(lex)
+    IN /\ r.ok /\ r.def = Sx!NormDef(PassDef)
+       /\ \A i \in 1..Len(lex) : lex[i] \notin {"proj", "|"}
+       /\ \A i \in 1..Len(PassDef) : \A j \in 1..Len(PassDef[i].args) : PassDef[i].args[j].k # "proj"
 
 Tree(p) == P!Instantiate(Translate(p))
 
@@ -213,7 +284,7 @@ InvIsInverse == (IsProbeCase /\ Pj.pipe) =>
             /\ P!BigApply(t1.v, d, PjDataC) = P!BigApply(t0.v, P!Flip(d), PjDataC)
 
 \* globals never override a step's own arguments; they do reach the steps that have none
-LocalsWin == ~Refused(Case) =>
+LocalsWin == (~Refused(Case) /\ ~IsPass) =>
     \A i \in 1..Len(Pj.steps) :
         LET s == Pj.steps[i]
             all == Pj.globals \o s.args
@@ -229,28 +300,36 @@ LocalsWin == ~Refused(Case) =>
 
 \* the same for the keys the translation rewrites: the ellipsoid of a step is built from the step's own a / rf
 \* where it has them and from the pipeline's otherwise; likewise k (as k_0)
-RewrittenLocalsWin == ~Refused(Case) =>
+RewrittenLocalsWin == (~Refused(Case) /\ ~IsPass) =>
     \A i \in 1..Len(Pj.steps) :
         LET s == Pj.steps[i]
             all == Pj.globals \o s.args
-            t == Tidy(all)
+            t == Tidy2(Pj.globals, s.args)
             pick(k) == ValWord((IF HasKey(s.args, k) THEN s.args[LastIdx(s.args, k)] ELSE Pj.globals[LastIdx(Pj.globals, k)]).v)
         IN /\ (HasKey(all, "a") /\ HasKey(all, "rf") /\ ~HasKey(all, "ellps")) =>
                 /\ ~HasKey(t, "a") /\ ~HasKey(t, "rf")
                 /\ t[LastIdx(t, "ellps")].v = [f |-> "list", s |-> <<pick("a"), pick("rf")>>]
+           \* a step with its own a and rf keeps its own ellipsoid whatever ellps the pipeline level gives
+           /\ OwnEllipsoid(s.args) =>
+                /\ ~HasKey(t, "a") /\ ~HasKey(t, "rf")
+                /\ t[LastIdx(t, "ellps")].v = [f |-> "list", s |-> <<ValWord(s.args[LastIdx(s.args, "a")].v),
+                                                                       ValWord(s.args[LastIdx(s.args, "rf")].v)>>]
+           \* and an ellps from the pipeline level reaches the steps that say nothing about the ellipsoid
+           /\ (HasKey(Pj.globals, "ellps") /\ ~HasKey(all, "a") /\ ~HasKey(all, "rf") /\ ~HasKey(s.args, "ellps")) =>
+                t[LastIdx(t, "ellps")].v = Pj.globals[LastIdx(Pj.globals, "ellps")].v
            /\ HasKey(all, "k") =>
                 /\ ~HasKey(t, "k")
                 /\ (~HasKey(all, "k_0") => ValWord(t[LastIdx(t, "k_0")].v) = pick("k"))
 
 \* step order is kept
-OrderKept == ~Refused(Case) =>
+OrderKept == (~Refused(Case) /\ ~IsPass) =>
     LET t == Translate(Pj)
         names == [i \in 1..Len(Pj.steps) |-> Pj.steps[i].name]
     IN [i \in 1..Len(t) |-> t[i].name] = (IF Pj.ginv THEN Rev(names) ELSE names)
 
 \* PROJ skips step s of P in direction d when: not inverted and (d=F, omit_fwd or d=I, omit_inv);
 \* inverted pipeline running d executes the original in the opposite direction
-OmitMeaning == ~Refused(Case) =>
+OmitMeaning == (~Refused(Case) /\ ~IsPass) =>
     \A d \in {"F", "I"} :
         LET t == Translate(Pj)
             n == Len(t)
@@ -266,14 +345,34 @@ CanonAgrees == IsProbeCase => Sx!CanonText(Translate(Pj)) = P!DefText(Translate(
 PjChoiceText(l) == LET s == SelectSeq(PjFieldOrder, LAMBDA f : l[f] # PjDefault[f])
                    IN JoinStr([i \in 1..Len(s) |-> s[i] \o "=" \o l[s[i]]], ",")
 
-Apps(p) == LET t == Tree(p) IN
-           IF ~t.ok THEN <<>>
-           ELSE [i \in 1..2 |-> LET d == IF i = 1 THEN "F" ELSE "I"
-                                    r == P!BigApply(t.v, d, PjDataC)
-                                IN [dir |-> d, count |-> r.cnt, data |-> r.data]]
+AppsOf(t) == IF ~t.ok THEN <<>>
+             ELSE [i \in 1..2 |-> LET d == IF i = 1 THEN "F" ELSE "I"
+                                      r == P!BigApply(t.v, d, PjDataC)
+                                  IN [dir |-> d, count |-> r.cnt, data |-> r.data]]
+Apps(p) == AppsOf(Tree(p))
+
+\* family "pass": exact expectations where the definition uses the probe operators only
+PassExact == \A i \in 1..Len(PassDef) : PassDef[i].name \in ProbeNames
+PassChoiceText(def, l) == LET s == SelectSeq(PassFieldOrder, LAMBDA f : l[f] # PassBase(def)[f])
+                          IN JoinStr([i \in 1..Len(s) |-> "sx." \o s[i] \o "=" \o l[s[i]]], ",")
+EmitPass ==
+    IF sl = PassBase(PassDef)
+    THEN PrintT(<<"PCASE", ToJson([
+            id |-> pc,
+            proj |-> PassText(PassDef, sl),
+            fam |-> "pass",
+            refuse |-> "",
+            ref |-> Sx!CanonText(PassDef),
+            ok |-> IF PassExact THEN P!Instantiate(PassDef).ok ELSE TRUE,
+            apps |-> IF PassExact THEN AppsOf(P!Instantiate(PassDef)) ELSE <<>>,
+            data |-> PjDataC,
+            resources |-> [n \in DOMAIN PjResC |-> Sx!CanonText(PjResC[n])],
+            nsteps |-> Len(PassDef)])>>)
+    ELSE PrintT(<<"PTEXT", ToJson([c |-> pc, t |-> PassText(PassDef, sl), ch |-> PassChoiceText(PassDef, sl)])>>)
 
 EmitPj ==
-    IF pl = PjDefault
+    IF IsPass THEN EmitPass
+    ELSE IF pl = PjDefault
     THEN PrintT(<<"PCASE", ToJson([
             id |-> pc,
             proj |-> PjText(PjRender(Pj, PjDefault)),
@@ -283,6 +382,7 @@ EmitPj ==
             ok |-> IF IsProbeCase THEN Tree(Pj).ok ELSE TRUE,
             apps |-> IF IsProbeCase THEN Apps(Pj) ELSE <<>>,
             data |-> IF Case.fam = "probe" THEN PjDataC ELSE <<>>,
+            resources |-> [n \in DOMAIN PjResC |-> Sx!CanonText(PjResC[n])],
             nsteps |-> Len(Pj.steps)])>>)
     ELSE PrintT(<<"PTEXT", ToJson([c |-> pc, t |-> PjText(PjRender(Pj, pl)), ch |-> PjChoiceText(pl)])>>)
 =============================================================================
